@@ -2,8 +2,10 @@
    Property theorems only; each is closed by [exact <lemma>] and followed by Print Assumptions.
    The model is the parser after the fixes F1, F2, F3, F9, F10 (see Model/Lines.v, Model/Parser.v); every
    panic site of the Go code is an explicit [Crash] of the model, so "never Crash" is "no reachable panic".
-   Not here: render_errors_total, evaluate_total (renderer / evaluation models). *)
+   render_errors_total is C10_renderings_total (Properties/C10.v). evaluate_total is proved for the commands
+   listed at C06_evaluate_total_partial. *)
 From Klog Require Import Base.Prelude Base.Utf8 Model.Record Model.Lines Model.Parser Proofs.Lines Proofs.Parser.
+From Klog Require Import Model.Calendar Model.Eval Model.Tags Model.Report Proofs.Eval Proofs.Report Proofs.ParserEval.
 Open Scope nat_scope.
 
 (* lines[0] of a block always exists: parse() does not panic on any block the splitter produces *)
@@ -32,10 +34,60 @@ Theorem C06_parse_text_blockwise : forall s : bytes,
   (forall rs bs, parse_text s = Ok (Parsed rs bs) ->
      bs = blocks_of s /\ Forall2 (fun r b => parse_record b = Ok (inl r)) rs bs) /\
   (forall es, parse_text s = Ok (Failed es) ->
-     es = flat_map (fun b => match parse_record b with Ok (inr errs) => map (report b) errs | _ => [] end)
+     es = flat_map (fun b => match parse_record b with Ok (inr errs) => map (Parser.report b) errs | _ => [] end)
                    (blocks_of s)).
 Proof. exact parse_text_blockwise. Qed.
 Print Assumptions C06_parse_text_blockwise.
+
+(* ---- evaluation of what the parser returned ---- *)
+
+(* the three evaluation functions return exactly under their int64 guards (Proofs/Eval.v: every summand and every
+   partial sum, in the order of the file, within +-(2^63-1)); otherwise they panic with "integer overflow" *)
+Theorem C06_evaluate_guards_exact : forall rs : list record,
+  ((exists t, total rs = Ok t) <-> no_overflow rs) /\
+  ((exists sh, should_total_sum rs = Ok sh) <-> should_no_overflow rs) /\
+  (forall sh t, (exists d, diff sh t = Ok d) <-> (fits t /\ fits sh /\ fits (t - sh)%Z)).
+Proof. exact evaluate_guards_exact. Qed.
+Print Assumptions C06_evaluate_guards_exact.
+
+(* for every text the parser accepts, no modelled read-only command panics as long as
+   gsize rs = (sum of |minutes| over all entries) + (sum of |should-total| over all records) fits an int64.
+   Covered (model, Go): service.Total / ShouldTotalSum / Diff (Model/Eval.v); `klog total --diff`, `klog report
+   --aggregate day|week|month|quarter|year [--fill] [--diff]`, `klog print --with-totals`, `klog today`
+   (Model/Report.v; `today` needs 1439 minutes of head room for the end-time forecast); `klog tags`
+   (Model/Tags.v go_aggregate_o). `klog print` (Model/Serialiser.v print_records : list record -> bytes) has no
+   panic site at all: it is a total function by construction, there is nothing to prove.
+   PARTIAL — not covered: the --now variants (closing open ranges can fail; C02_close_first_day_refuted),
+   filters and --period arguments (C13/C15), `klog json` (Model/JsonView.v has no no-crash lemma yet),
+   the terminal layout of the tables. *)
+Theorem C06_evaluate_total_partial : forall (s : bytes) (rs : list record) (bs : list block),
+  parse_text s = Ok (Parsed rs bs) -> (gsize rs <= max_int64)%Z ->
+  (total rs = Ok (spec_total rs) /\ should_total_sum rs = Ok (spec_should rs) /\
+   diff (spec_should rs) (spec_total rs) = Ok (spec_total rs - spec_should rs)%Z) /\
+  (forall today h m, exists v, total_cmd false today h m rs = Ok v) /\
+  (forall a fill df today h m, exists v, report_cmd a fill df false today h m rs = Ok v) /\
+  (exists v, with_totals rs = Ok v) /\
+  (exists v, go_aggregate_o rs = Ok v) /\
+  (forall today yesterday h m, valid_clock h m -> plus_days today (-1) = Ok yesterday ->
+     (gsize rs + 1439 <= max_int64)%Z -> exists v, today_cmd false today h m rs = Ok v).
+Proof. exact evaluate_total. Qed.
+Print Assumptions C06_evaluate_total_partial.
+
+(* K1: without the guard it is false — the parser accepts
+   "2020-01-01\n    9223372036854775807m\n    9223372036854775807m" (each entry fits an int64) and
+   service.Total, hence `klog total`, panics with an integer overflow *)
+Theorem C06_evaluate_total_refuted :
+  exists s rs bs, parse_text s = Ok (Parsed rs bs) /\
+    Forall fits (map spec_minutes (all_entries rs)) /\
+    total rs = Crash CIntegerOverflow /\
+    (forall today h m, total_cmd false today h m rs = Crash CIntegerOverflow).
+Proof. exact evaluate_total_refuted. Qed.
+Print Assumptions C06_evaluate_total_refuted.
+
+(* non-vacuity of the guard: example_text parses to records of 60 minutes in total, gsize = 60 *)
+Example C06_evaluate_nonvacuous :
+  exists rs bs, parse_text example_text = Ok (Parsed rs bs) /\ gsize rs = 60%Z /\ total rs = Ok 60%Z.
+Proof. eexists _, _. split; [vm_compute; reflexivity|]. split; vm_compute; reflexivity. Qed.
 
 (* non-vacuity: both alternatives occur — example_text (invalid UTF-8, CRLF, lone CR, no final newline)
    parses to 2 records with 2 blocks, example_faulty to 5 errors *)
